@@ -264,6 +264,12 @@ package metrics
 //@   ensures implies(result, uf("safeName", bool, key))
 //@   note string-level meaning of the validator ("a single file name: not empty, not . or .., at most 255 bytes, no / and no NUL") is ASSUMED
 //@ end
+// the validator's string-level meaning, decided by a bounded stand-in only
+//@ func IsValidTagKey @strings
+//@   props C19
+//@   note no proof obligations: this view only attaches the bounded stand-in (the primary contract above is the ASSUMED meaning the C19 proofs use)
+//@   bounded metrics/validtagkey_test.go Test_Bounded_IsValidTagKey every string of up to 4 bytes over { / NUL . a - _ }, alone and at the start / middle / end of a longer plain key, and keys around the 255-byte limit (about 6200 keys): accepted exactly when not empty, not . or .., within the limit and free of / and NUL at every position
+//@ end
 //@ func (*TagsHolder).GetEntries
 //@   props C19
 //@   requires th != nil && th.idx >= 0 && th.idx <= len(th.entries)
@@ -430,4 +436,31 @@ package metrics
 //@   ensures [the-range-contains-the-sample] ms.lowTS <= ts && ts <= ms.highTS
 //@   ensures [the-range-never-shrinks] ms.lowTS <= old(ms.lowTS) && ms.highTS >= old(ms.highTS)
 //@   ensures [the-range-grows-only-as-far-as-the-sample] (ms.lowTS == old(ms.lowTS) || ms.lowTS == ts) && (ms.highTS == old(ms.highTS) || ms.highTS == ts)
+//@ end
+
+// C10 (restart replays the metric names whose append had completed): the names
+// read from a segment's name WAL are written into <segment dir>/<seg>.mnm; a
+// segment that crashed before its first block flush has no directory yet, so
+// the directory is created before the names are flushed (the WAL files are
+// already deleted at that point: a failed flush would lose the names).
+// Ghost mnmDirMade: MkdirAll of this segment's directory ran in this iteration.
+//@ ghostdecl mnmDirMade int
+//@ func RecoverMNameWALData
+//@   props C10
+//@   assumecalleerequires
+//@   ghostinit ghost(0, "mnmDirMade") == 0
+//@   site callret initSegment #1:
+//@     ghostset ghost(0, "mnmDirMade") = 0
+//@   site call os.MkdirAll #1:
+//@     assert [the-directory-made-is-the-segments-own] arg0 == ms.metricsKeyBase
+//@   site callret os.MkdirAll #1:
+//@     ghostset ghost(0, "mnmDirMade") = 1
+//@   site call ms.FlushMetricNames #1:
+//@     assert [names-are-flushed-into-a-directory-that-was-just-made-to-exist] ghost(0, "mnmDirMade") == 1
+//@   loop 1:
+//@     invariant true
+//@   loop 2:
+//@     invariant true
+//@   loop 3:
+//@     invariant true
 //@ end
